@@ -20,6 +20,10 @@ visnum = z3.Function('visnum', Val, z3.BoolSort())
 vutf8 = z3.Function('vutf8', Val, z3.BoolSort())
 vnum = z3.Function('vnum', Val, B64)
 vempty = z3.Const('vempty', Val)
+# the content of a window (offset, length) of the wire array, seen as a stored byte string (used when the code compares a
+# request's bytes with stored bytes): uninterpreted, so equality with another term is a free choice of the solver; witness
+# concretisation gives the stored term the window's bytes (props/store_replay.Concretizer), replay confirms or refutes it
+vwin = z3.Function('vwin', B64, B64, Val)
 WIRE = z3.Array('wire', B64, z3.BitVecSort(8))
 
 
@@ -147,6 +151,23 @@ def mk_vdec(E, v):
     t = vdec(v)
     E.assume(visnum(t), vutf8(t), vnum(t) == v, vlen(t) == E_declen(v))
     return t
+
+
+def to_val(E, x):
+    """any byte-string representation as a Val term"""
+    if isinstance(x, VTerm):
+        return x.t
+    if isinstance(x, Rope):
+        x = freeze_rope(E, x)
+        if isinstance(x, VTerm):
+            return x.t
+        if isinstance(x, Rope) and not x.parts:
+            return vempty
+    if isinstance(x, Buf) and x.base.eq(WIRE):
+        t = vwin(x.off, x.len)
+        E.assume(vlen(t) == x.len)
+        return t
+    raise Unsupported(f'byte-string comparison of {x!r}')
 
 
 def freeze_rope(E, r):
@@ -338,9 +359,7 @@ def install(E):
     @reg(E, '<bytes::Bytes as PartialEq>::eq')
     def beq(E, a, ctx):
         x, y = deref(E, a[0]), deref(E, a[1])
-        if isinstance(x, VTerm) and isinstance(y, VTerm):
-            return x.t == y.t
-        raise Unsupported('Bytes == Bytes on wire slices')
+        return to_val(E, x) == to_val(E, y)
 
     # ---- text -> number (the abstraction point of C07: "decimal u64" is whatever str::parse::<u64> accepts)
     @reg(E, 'from_utf8', 'std::str::from_utf8', 'core::str::from_utf8')
